@@ -313,7 +313,30 @@ class ImapSession:
                     w.violate("C07", "bad_response_code", session=self.sid, code=[str(x) for x in code], cmd=self._curverb(), raw=bytes(parts[0][:120]))
             if r.kind == "FETCH":
                 self._check_fetch_structures(r, parts)
+            elif r.kind == "SEARCH":
+                # mailbox-data =/ "SEARCH" *(SP nz-number)
+                w.count("c07_search_line")
+                import re as _re
+
+                if len(parts) != 1 or not _re.fullmatch(rb"\* SEARCH( [1-9][0-9]*)*(\r\n)?", bytes(parts[0])):
+                    w.violate("C07", "bad_search_response", session=self.sid, cmd=self._curverb(), raw=bytes(parts[0][:120]))
+            elif r.kind == "FLAGS" and r.tokens and isinstance(r.tokens[0], list):
+                self._check_flag_atoms(r.tokens[0], parts)
             self._handle(r)
+
+    _FLAG_ATOM = None
+
+    def _check_flag_atoms(self, flags, parts):
+        """C07: what stands in a flag list is `\\`? followed by ATOM-CHARs (a `]` or a `(` inside a keyword breaks the
+        client's parser further on, e.g. in `* OK [PERMANENTFLAGS (...)]`)."""
+        import re as _re
+
+        w = self.world
+        w.count("c07_flag_atoms")
+        for f in flags:
+            if isinstance(f, list) or not _re.fullmatch(r"\\?[^\x00-\x20\x7f-\xff(){%*\"\\\]]+", str(f)):
+                w.violate("C07", "bad_flag_atom", session=self.sid, flag=repr(f)[:60], cmd=self._curverb(), raw=bytes(parts[0][:120]))
+                return
 
     def _check_fetch_structures(self, r, parts):
         """C07: the parenthesised structures of ENVELOPE and BODY/BODYSTRUCTURE have the shape rfc3501 gives them
@@ -331,6 +354,11 @@ class ImapSession:
         def bad(what, v):
             w.violate("C07", "bad_fetch_structure", session=self.sid, what=what, value=repr(v)[:160], cmd=self._curverb(), raw=bytes(parts[0][:120]))
 
+        if not items:
+            bad("no data item in the FETCH response", r.tokens)
+        fl = items.get("FLAGS")
+        if isinstance(fl, list):
+            self._check_flag_atoms(fl, parts)
         env = items.get("ENVELOPE")
         if env is not None:
             w.count("c07_envelope_shape")
